@@ -1,6 +1,7 @@
 package simrt
 
 import (
+	"reflect"
 	"sync"
 	"unsafe"
 )
@@ -29,6 +30,43 @@ type tryRLocker interface {
 // released the lock (sync documentation; this is what makes recursive read-locking a
 // deadlock). A polling TryLock does not announce itself to the real RWMutex, so the
 // simulator keeps the set of pending writers and RLock consults it.
+// LockAny replaces x.Lock() where x has an INTERFACE type (sync.Locker - `c.L.Lock()` is the
+// documented sync.Cond idiom - or an interface of the library): the mutexes of package
+// sync get the model, any other implementation is library code and is instrumented itself.
+func LockAny(l interface{ Lock() }) {
+	switch m := l.(type) {
+	case *sync.Mutex:
+		Lock(m)
+	case *sync.RWMutex:
+		Lock(m)
+	default:
+		if rw := asRLocker(l); rw != nil {
+			RLock(rw)
+			return
+		}
+		l.Lock()
+	}
+}
+
+// RLockAny: the same for x.RLock() on an interface value.
+func RLockAny(l interface{ RLock() }) {
+	if rw, ok := l.(*sync.RWMutex); ok {
+		RLock(rw)
+		return
+	}
+	l.RLock()
+}
+
+// asRLocker recognises the value returned by (*sync.RWMutex).RLocker(): its unexported
+// type is defined as `type rlocker RWMutex`, Lock means RLock.
+func asRLocker(l any) *sync.RWMutex {
+	v := reflect.ValueOf(l)
+	if v.Kind() == reflect.Pointer && v.Type().String() == "*sync.rlocker" {
+		return (*sync.RWMutex)(v.UnsafePointer())
+	}
+	return nil
+}
+
 func Lock(m tryLocker) {
 	if !isActive() {
 		m.Lock()
@@ -80,7 +118,7 @@ var (
 	nPendingW      int
 )
 
-const tableCap = 128
+const tableCap = 1024
 
 //go:norace
 func writerPending(p unsafe.Pointer, d int) {
